@@ -313,15 +313,22 @@ func checkC08(r *core.Run) {
 			if !ok {
 				return true
 			}
+			// the conversion must be unconditional inside the case: text written as []byte only for *some* values
+			// (say, those that "look like base64") leaves the rest to be base64-decoded by the reader all the same
 			conv := false
-			ast.Inspect(cc, func(m ast.Node) bool {
-				if c, ok := m.(*ast.CallExpr); ok {
-					if tv, ok := minfo.Types[c.Fun]; ok && tv.IsType() && tv.Type.String() == "[]byte" {
-						conv = true
+			for _, st := range cc.Body {
+				as, ok := st.(*ast.AssignStmt)
+				if !ok {
+					continue
+				}
+				for _, rh := range as.Rhs {
+					if c, ok := ast.Unparen(rh).(*ast.CallExpr); ok {
+						if tv, ok := minfo.Types[c.Fun]; ok && tv.IsType() && tv.Type.String() == "[]byte" {
+							conv = true
+						}
 					}
 				}
-				return true
-			})
+			}
 			if conv {
 				for _, e := range cc.List {
 					if c := core.ConstObj(minfo, e); c != nil {
